@@ -425,6 +425,60 @@ Definition vrel (c : cmd) (id : N) (m : nat) (t t' : tract) : Prop :=
         /\ et_blob e = id /\ N.to_nat (et_idx e) = m /\ t_version t' = u32 (et_newver e)
         /\ (et_newver e < 2 \/ et_newver e = t_version t + 1)).
 
+(* ---------- RS pointers of a tract ---------- *)
+Ltac rs_cases :=
+  unfold rs_get, rs_set, is_rs_class, known_class, c_ClassREPLICATED, c_ClassRS63, c_ClassRS83, c_ClassRS103, c_ClassRS125 in *;
+  repeat match goal with
+         | |- context [?a =? ?b] => destruct (N.eqb_spec a b)
+         | H : context [?a =? ?b] |- _ => destruct (N.eqb_spec a b)
+         end; subst; cbn in *; try reflexivity; try congruence; try discriminate; try lia.
+
+Lemma rs_get_set_same : forall c v t, is_rs_class c = true -> rs_get c (rs_set c v t) = v.
+Proof. intros. rs_cases. Qed.
+
+Lemma rs_get_set_other : forall c c2 v t, c2 <> c -> rs_get c2 (rs_set c v t) = rs_get c2 t.
+Proof. intros. rs_cases. Qed.
+
+Lemma rs_get_build : forall cls t, rs_get cls (build_tract t) = option_map cid_norm (rs_get cls t).
+Proof. intros. unfold build_tract. rs_cases. Qed.
+
+Lemma rs_get_fresh : forall cls h v, rs_get cls (mkTract h v None None None None) = None.
+Proof. intros. rs_cases. Qed.
+
+Lemma rs_get_fields : forall cls t h v, rs_get cls (mkTract h v (t_rs1 t) (t_rs2 t) (t_rs3 t) (t_rs4 t)) = rs_get cls t.
+Proof. intros. rs_cases. Qed.
+
+Lemma chunk_key_norm : forall c, chunk_key (cid_norm c) = chunk_key c.
+Proof.
+  intros [p i]. unfold chunk_key, cid_norm, u32, two32, two48. cbn [fst snd].
+  rewrite !N.mod_mod by lia. reflexivity.
+Qed.
+
+Lemma rs_set_none_ptr : forall c cls t cid, rs_get cls (rs_set c None t) = Some cid -> rs_get cls t = Some cid.
+Proof.
+  intros c cls t cid H. destruct (N.eq_dec cls c) as [->|Hne].
+  - destruct (is_rs_class c) eqn:E; [rewrite rs_get_set_same in H by auto; discriminate|].
+    revert H. clear - E. rs_cases.
+  - rewrite rs_get_set_other in H by auto. exact H.
+Qed.
+
+Lemma clear_others_ptr : forall k cls t cid, rs_get cls (clear_others k t) = Some cid -> rs_get cls t = Some cid.
+Proof.
+  intros k cls t cid H. unfold clear_others in H.
+  assert (G : forall l t0, rs_get cls (fold_left (fun acc c => if c =? k then acc else rs_set c None acc) l t0) = Some cid -> rs_get cls t0 = Some cid).
+  { induction l; intros t0 Hf; cbn [fold_left] in Hf; [exact Hf|]. apply IHl in Hf.
+    destruct (a =? k); [exact Hf|eapply rs_set_none_ptr; exact Hf]. }
+  apply G in H. destruct (k =? c_ClassREPLICATED); exact H.
+Qed.
+
+(* how the RS pointers of an existing tract may change: a pointer of the new tract is one the old tract had (possibly
+   re-packed: same chunk key), or the chunk of the CommitRSChunk whose layout names this tract *)
+Definition prel (c : cmd) (id : N) (m : nat) (t t' : tract) : Prop :=
+  forall cls cid', rs_get cls t' = Some cid' ->
+    (exists cid0, rs_get cls t = Some cid0 /\ chunk_key cid' = chunk_key cid0)
+    \/ (exists cid cls0 hosts data e, c = CCommitRS cid cls0 hosts data /\ chunk_key cid' = chunk_key cid
+          /\ In e (concat data) /\ et_blob e = id /\ N.to_nat (et_idx e) = m).
+
 (* how the holders of an existing tract may change: kept (possibly re-packed), cleared by UpdateStorageClass, or
    replaced by the ChangeTract naming the tract with a list of the same length *)
 Definition hrel (c : cmd) (id : N) (m : nat) (t t' : tract) : Prop :=
@@ -434,7 +488,8 @@ Definition hrel (c : cmd) (id : N) (m : nat) (t t' : tract) : Prop :=
 
 (* where a tract beyond the old length comes from: one host list of the ExtendBlob naming the blob, of length repl *)
 Definition newrel (c : cmd) (id : N) (b : blob) (t' : tract) : Prop :=
-  exists first hs h, c = CExtend id first hs /\ In h hs /\ t_hosts t' = norm_hosts h /\ N.of_nat (length h) = b_repl b.
+  exists first hs h, c = CExtend id first hs /\ In h hs /\ t_hosts t' = norm_hosts h /\ N.of_nat (length h) = b_repl b
+                     /\ forall cls, rs_get cls t' = None.
 
 Definition blob_rel (c : cmd) (id : N) (b b' : blob) : Prop :=
   (length (b_tracts b) <= length (b_tracts b'))%nat
@@ -443,7 +498,8 @@ Definition blob_rel (c : cmd) (id : N) (b b' : blob) : Prop :=
   /\ Forall tract_ok (b_tracts b')
   /\ (forall m t t', nth_error (b_tracts b) m = Some t -> nth_error (b_tracts b') m = Some t' -> hrel c id m t t')
   /\ (forall m t', nth_error (b_tracts b) m = None -> nth_error (b_tracts b') m = Some t' -> newrel c id b t')
-  /\ (b_repl b' = b_repl b \/ b_repl b' = u8 (b_repl b)).
+  /\ (b_repl b' = b_repl b \/ b_repl b' = u8 (b_repl b))
+  /\ (forall m t t', nth_error (b_tracts b) m = Some t -> nth_error (b_tracts b') m = Some t' -> prel c id m t t').
 
 Lemma blob_rel_refl : forall c id b, Forall tract_ok (b_tracts b) -> blob_rel c id b b.
 Proof.
@@ -451,6 +507,7 @@ Proof.
   - intros m t t' H1 H2. left. congruence.
   - intros m t t' H1 H2. left. congruence.
   - intros m t' H1 H2. congruence.
+  - intros m t t' H1 H2 cls cid' Hp. left. exists cid'. split; [congruence|reflexivity].
 Qed.
 
 Lemma build_tracts_ok : forall ts, Forall tract_ok (map build_tract ts).
@@ -473,24 +530,29 @@ Lemma blob_rel_build : forall c id b x,
   (b_deleted b = 0 \/ exists u, c = CUndelete u) ->
   (length (b_tracts b) <= length (b_tracts x))%nat ->
   (forall m t tx, nth_error (b_tracts b) m = Some t -> nth_error (b_tracts x) m = Some tx ->
-     t_version tx = t_version t /\ (t_hosts tx = t_hosts t \/ t_hosts tx = [])) ->
+     t_version tx = t_version t /\ (t_hosts tx = t_hosts t \/ t_hosts tx = [])
+     /\ (forall cls cid, rs_get cls tx = Some cid -> rs_get cls t = Some cid)) ->
   (forall m tx, nth_error (b_tracts b) m = None -> nth_error (b_tracts x) m = Some tx ->
-     exists first hs h, c = CExtend id first hs /\ In h hs /\ t_hosts tx = h /\ N.of_nat (length h) = b_repl b) ->
+     exists first hs h, c = CExtend id first hs /\ In h hs /\ t_hosts tx = h /\ N.of_nat (length h) = b_repl b
+                        /\ forall cls, rs_get cls tx = None) ->
   b_repl x = b_repl b ->
   blob_rel c id b (build_blob x).
 Proof.
   intros c id b x Hok Hd Hl Hv Hnew Hrepl. unfold blob_rel. cbn [build_blob b_tracts b_repl].
-  split; [rewrite map_length; exact Hl|]. split; [|split; [|split; [apply build_tracts_ok|split; [|split]]]].
+  split; [rewrite map_length; exact Hl|]. split; [|split; [|split; [apply build_tracts_ok|split; [|split; [|split]]]]].
   - intros m t t' H1 H2. apply nth_error_map_inv in H2. destruct H2 as (tx & H2 & ->). left. cbn.
     rewrite (proj1 (Hv _ _ _ H1 H2)). unfold u32. apply N.mod_small. exact (Forall_nth _ _ _ _ Hok H1).
   - intros Hn Hu. destruct Hd as [Hd|[u Hd]]; [contradiction|]. exfalso. eapply Hu; eauto.
   - intros m t t' H1 H2. apply nth_error_map_inv in H2. destruct H2 as (tx & H2 & ->).
     unfold hrel. cbn [build_tract t_hosts].
-    destruct (proj2 (Hv _ _ _ H1 H2)) as [E|E]; rewrite E; [right; left; reflexivity|right; right; left; reflexivity].
+    destruct (proj1 (proj2 (Hv _ _ _ H1 H2))) as [E|E]; rewrite E; [right; left; reflexivity|right; right; left; reflexivity].
   - intros m t' H1 H2. apply nth_error_map_inv in H2. destruct H2 as (tx & H2 & ->).
-    destruct (Hnew _ _ H1 H2) as (first & hs & h & Ec & Hin & Eh & El). exists first, hs, h.
-    cbn [build_tract t_hosts]. rewrite Eh. auto.
+    destruct (Hnew _ _ H1 H2) as (first & hs & h & Ec & Hin & Eh & El & Hp). exists first, hs, h.
+    cbn [build_tract t_hosts]. rewrite Eh. repeat split; auto. intros cls. rewrite rs_get_build, Hp. reflexivity.
   - right. rewrite Hrepl. reflexivity.
+  - intros m t t' H1 H2. apply nth_error_map_inv in H2. destruct H2 as (tx & H2 & ->).
+    intros cls cid' Hp. rewrite rs_get_build in Hp. destruct (rs_get cls tx) as [c0|] eqn:E0; [|discriminate]. cbn in Hp.
+    injection Hp as <-. left. exists c0. split; [apply (proj2 (proj2 (Hv _ _ _ H1 H2))); exact E0|apply chunk_key_norm].
 Qed.
 
 Lemma length_list_set : forall {A} n (x : A) l, length (list_set n x l) = length l.
@@ -579,8 +641,31 @@ Definition vtrack (all : list enc_tract) (k : N) (b0 bw : blob) : Prop :=
     t_version tw = t_version t0
     \/ exists e, In e all /\ et_blob e = k /\ N.to_nat (et_idx e) = m /\ t_version tw = et_newver e.
 
-Definition upd_ok (all : list enc_tract) (d : dstate) (upd : amap blob) : Prop :=
-  forall k bw, In (k, bw) upd -> exists b0, live_blob d k = Some b0 /\ same_shape b0 bw /\ vtrack all k b0 bw.
+Definition ptrack (all : list enc_tract) (cid : chunkid) (k : N) (b0 bw : blob) : Prop :=
+  forall m t0 tw cls c', nth_error (b_tracts b0) m = Some t0 -> nth_error (b_tracts bw) m = Some tw ->
+    rs_get cls tw = Some c' ->
+    rs_get cls t0 = Some c' \/ (c' = cid /\ exists e, In e all /\ et_blob e = k /\ N.to_nat (et_idx e) = m).
+
+Definition upd_ok (all : list enc_tract) (cid : chunkid) (d : dstate) (upd : amap blob) : Prop :=
+  forall k bw, In (k, bw) upd ->
+    exists b0, live_blob d k = Some b0 /\ same_shape b0 bw /\ vtrack all k b0 bw /\ ptrack all cid k b0 bw.
+
+Lemma ptrack_refl : forall all cid k b, ptrack all cid k b b.
+Proof. intros all cid k b m t0 tw cls c' H1 H2 H3. left. congruence. Qed.
+
+Lemma ptrack_set : forall all cid cls k b0 bw e t t'', ptrack all cid k b0 bw -> In e all -> et_blob e = k ->
+  nth_error (b_tracts bw) (N.to_nat (et_idx e)) = Some t ->
+  (forall c2, rs_get c2 t'' = rs_get c2 (rs_set cls (Some cid) t)) -> is_rs_class cls = true ->
+  ptrack all cid k b0 (set_tracts bw (list_set (N.to_nat (et_idx e)) t'' (b_tracts bw))).
+Proof.
+  intros all cid cls k b0 bw e t t'' Hp Hin Hk Hn Ht Hc m t0 tw c2 c' H0 Hw Hg. cbn [set_tracts b_tracts] in Hw.
+  destruct (Nat.eq_dec (N.to_nat (et_idx e)) m) as [<-|Hne].
+  - rewrite nth_error_list_set in Hw by (apply nth_error_Some; congruence). injection Hw as <-.
+    rewrite Ht in Hg. destruct (N.eq_dec c2 cls) as [->|Hc2].
+    + rewrite rs_get_set_same in Hg by auto. injection Hg as <-. right. split; [reflexivity|]. exists e. auto.
+    + rewrite rs_get_set_other in Hg by auto. eapply Hp; eauto.
+  - rewrite nth_error_list_set_ne in Hw by auto. eapply Hp; eauto.
+Qed.
 
 Lemma vtrack_refl : forall all k b, vtrack all k b b.
 Proof. intros all k b m t0 tw H1 H2. left. congruence. Qed.
@@ -609,30 +694,41 @@ Proof.
   - rewrite nth_error_list_set_ne in Hw by auto. eapply Hh; eauto.
 Qed.
 
+Lemma commit_one_rs_class : forall d cid cls upd e upd', commit_one d cid cls upd e = CROk upd' -> is_rs_class cls = true.
+Proof.
+  intros d cid cls upd e upd' H. unfold commit_one in H. repeat break_hyp H; try discriminate.
+  all: unfold known_class in *; destruct (is_rs_class cls); auto;
+       match goal with Hk : negb (_ || false) = false, Hr : (_ =? c_ClassREPLICATED) = false |- _ =>
+         rewrite Hr in Hk; discriminate end.
+Qed.
+
 Lemma commit_loop_upd_ok : forall all d cid cls es upd upd', commit_loop d cid cls upd es = CROk upd' -> incl es all ->
-  upd_ok all d upd -> upd_ok all d upd'.
+  upd_ok all cid d upd -> upd_ok all cid d upd'.
 Proof.
   induction es as [|e es IH]; intros upd upd' H Hi Hk; cbn [commit_loop] in H; [inv H; auto|].
   destruct (commit_one d cid cls upd e) as [upd1| |] eqn:E; try discriminate.
   assert (Hie : In e all) by (apply Hi; now left).
+  pose proof (commit_one_rs_class _ _ _ _ _ _ E) as Hcls.
   eapply IH; eauto; [eapply incl_cons_inv; eauto|]. intros k bw Hin.
   unfold commit_one in E.
   destruct (aget (et_blob e) upd) eqn:E0.
   - destruct (nth_error (b_tracts b) (N.to_nat (et_idx e))) as [t|] eqn:En; [|discriminate].
     repeat break_hyp E; inv E. apply In_aput in Hin. destruct Hin as [[-> ->]|Hin]; [|auto].
-    destruct (Hk _ _ (aget_In _ _ _ E0)) as (b0 & L & Sh & Vt). exists b0. split; auto. split.
+    destruct (Hk _ _ (aget_In _ _ _ E0)) as (b0 & L & Sh & Vt & Pt). exists b0. split; auto. split; [|split].
     + eapply same_shape_set; eauto. cbn. apply rs_set_hosts.
     + eapply vtrack_set; eauto.
+    + eapply ptrack_set; eauto. intros c2. apply rs_get_fields.
   - destruct (live_blob d (et_blob e)) eqn:E1; [|discriminate].
     destruct (nth_error (b_tracts b) (N.to_nat (et_idx e))) as [t|] eqn:En; [|discriminate].
     repeat break_hyp E; inv E. apply In_aput in Hin. destruct Hin as [[-> ->]|Hin]; [|auto].
-    eexists; split; [exact E1|]. split.
+    eexists; split; [exact E1|]. split; [|split].
     + eapply same_shape_set; eauto; [apply same_shape_refl|]. cbn. apply rs_set_hosts.
     + eapply vtrack_set; eauto. apply vtrack_refl.
+    + eapply ptrack_set; eauto; [apply ptrack_refl|]. intros c2. apply rs_get_fields.
 Qed.
 
-Lemma upd_ok_nil : forall all d, upd_ok all d [].
-Proof. intros all d k bw []. Qed.
+Lemma upd_ok_nil : forall all cid d, upd_ok all cid d [].
+Proof. intros all cid d k bw []. Qed.
 
 (* what the version check of the repaired command guarantees *)
 Lemma precheck_ok : forall d es e, commit_precheck d es = None -> In e es -> 2 <= et_newver e ->
@@ -671,7 +767,7 @@ Ltac live_setup Hok :=
 
 Ltac same_tracts :=
   [> cbn; lia
-   | intros m t tx H1 H2; cbn in H2; split; [congruence|left; congruence]
+   | intros m t tx H1 H2; cbn in H2; split; [congruence|split; [left; congruence|intros cls0 cid0 Hp0; congruence]]
    | intros m tx H1 H2; cbn in H2; congruence
    | reflexivity ].
 
@@ -705,10 +801,11 @@ Proof.
     apply blob_rel_build; [exact Hb|left; exact Hdel|..].
     + cbn. rewrite app_length. lia.
     + intros m t tx H1 H2. cbn in H2. rewrite nth_error_app1 in H2 by (apply nth_error_Some; congruence).
-      split; [congruence|left; congruence].
+      split; [congruence|split; [left; congruence|intros cls0 cid0 Hp0; congruence]].
     + intros m tx H1 H2. cbn in H2. apply nth_error_None in H1. rewrite nth_error_app2 in H2 by lia.
       apply nth_error_map_inv in H2. destruct H2 as (h & H2 & ->). cbn.
       exists first, hosts, h. split; [reflexivity|]. split; [eapply nth_error_In; eauto|]. split; [reflexivity|].
+      split; [|intros cls0; apply rs_get_fresh].
       match goal with Hf : negb (forallb _ hosts) = false |- _ =>
         apply negb_false_iff in Hf; rewrite forallb_forall in Hf; specialize (Hf h (nth_error_In _ _ H2)); apply N.eqb_eq in Hf; exact Hf end.
     + reflexivity.
@@ -731,7 +828,7 @@ Proof.
     match goal with Hv : negb (_ + 1 =? ver) = false |- _ => apply negb_false_iff, N.eqb_eq in Hv; subst ver end.
     match goal with Hh : negb (_ =? length hosts)%nat = false |- _ => apply negb_false_iff, Nat.eqb_eq in Hh; rename Hh into Hlen end.
     unfold blob_rel. cbn [set_tracts b_tracts b_repl]. rewrite length_list_set.
-    split; [lia|]. split; [|split; [|split; [|split; [|split]]]].
+    split; [lia|]. split; [|split; [|split; [|split; [|split; [|split]]]]].
     + intros m t1 t1' H1 H2. destruct (Nat.eq_dec (N.to_nat idx) m) as [<-|Hne].
       * rewrite nth_error_list_set in H2 by (apply nth_error_Some; congruence). inv H2. rewrite Hnth in H1. inv H1.
         right. left. do 3 eexists. split; [reflexivity|]. repeat split; reflexivity.
@@ -746,22 +843,28 @@ Proof.
       assert (nth_error (list_set (N.to_nat idx) {| t_hosts := norm_hosts hosts; t_version := u32 (t_version t + 1); t_rs1 := t_rs1 t; t_rs2 := t_rs2 t; t_rs3 := t_rs3 t; t_rs4 := t_rs4 t |} (b_tracts b)) m <> None) by congruence.
       apply nth_error_Some in H. rewrite length_list_set in H. lia.
     + left. reflexivity.
+    + intros m t1 t1' H1 H2 cls0 cid0 Hp0. left. exists cid0. split; [|reflexivity].
+      destruct (Nat.eq_dec (N.to_nat idx) m) as [<-|Hne].
+      * rewrite nth_error_list_set in H2 by (apply nth_error_Some; congruence). inv H2. rewrite Hnth in H1. inv H1.
+        rewrite rs_get_fields in Hp0. exact Hp0.
+      * rewrite nth_error_list_set_ne in H2 by auto. congruence.
   - inv H. destruct (update_fold_get _ _ _ _ G) as (b & Gb & T & D & E & R).
     left. exists b. split; auto. pose proof (Hok _ _ Gb) as Hb.
     unfold blob_rel. rewrite T. repeat split; auto.
     + intros m t t' H1 H2. left. congruence.
     + intros m t t' H1 H2. left. congruence.
     + intros m t' H1 H2. congruence.
+    + intros m t t' H1 H2 cls0 cid0 Hp0. left. exists cid0. split; [congruence|reflexivity].
   - unfold do_allocrs in H. repeat break_hyp H; inv H; auto.
   - unfold do_commit in H. destruct (commit_precheck d (concat data)) eqn:Epre; [inv H; auto|].
     unfold do_commit_unchecked in H. repeat break_hyp H; try (inv H; auto; fail). inv H.
     cbn [set_tsids set_blobs set_chunks d_blobs] in G. apply fold_aput_get in G.
     destruct G as [G|(bw & Hin & ->)]; [auto|].
     match goal with Hc : commit_loop _ _ _ _ _ = CROk _ |- _ =>
-      destruct (commit_loop_upd_ok (concat data) _ _ _ _ _ _ Hc (incl_refl _) (upd_ok_nil _ _) _ _ Hin) as (b0 & L & (Len & Rp & Hh) & Vt) end.
+      destruct (commit_loop_upd_ok (concat data) _ _ _ _ _ _ Hc (incl_refl _) (upd_ok_nil _ _ _) _ _ Hin) as (b0 & L & (Len & Rp & Hh) & Vt & Pt) end.
     left. exists b0. split; [apply has_live; auto|]. pose proof (Hok _ _ (has_live _ _ _ L)) as Hb0.
     unfold blob_rel. cbn [build_blob b_tracts b_repl]. rewrite map_length.
-    split; [lia|]. split; [|split; [|split; [apply build_tracts_ok|split; [|split]]]].
+    split; [lia|]. split; [|split; [|split; [apply build_tracts_ok|split; [|split; [|split]]]]].
     + intros m t t' H1 H2. apply nth_error_map_inv in H2. destruct H2 as (tw & H2 & ->).
       destruct (Vt m t tw H1 H2) as [Ev|(e & He & Hk & Hm & Ev)].
       * left. cbn. rewrite Ev. unfold u32. apply N.mod_small. exact (Forall_nth _ _ _ _ Hb0 H1).
@@ -775,13 +878,19 @@ Proof.
     + intros m t' H1 H2. apply nth_error_map_inv in H2. destruct H2 as (tw & H2 & ->).
       apply nth_error_None in H1. assert (nth_error (b_tracts bw) m <> None) by congruence. apply nth_error_Some in H. lia.
     + right. rewrite Rp. reflexivity.
+    + intros m t t' H1 H2. apply nth_error_map_inv in H2. destruct H2 as (tw & H2 & ->).
+      intros cls0 cid' Hp. rewrite rs_get_build in Hp. destruct (rs_get cls0 tw) as [c0|] eqn:E0; [|discriminate]. cbn in Hp.
+      injection Hp as <-. destruct (Pt m t tw cls0 c0 H1 H2 E0) as [Eo|(-> & e & He & Hk & Hm)].
+      * left. exists c0. split; [exact Eo|apply chunk_key_norm].
+      * right. exists cid, cls, hosts, data, e. split; [reflexivity|]. split; [apply chunk_key_norm|]. auto.
   - unfold do_rshosts in H. repeat break_hyp H; inv H; auto.
   - unfold do_updatesc in H. repeat break_hyp H; try (inv H; auto; fail). inv H. live_setup Hok.
     match goal with Hp : put_blob _ _ _ = Some _ |- _ => eapply (Put _ _ _ _ Hp); [reflexivity|exact Gb|] end.
     apply blob_rel_build; [exact Hb|left; exact Hdel|..].
     + cbn. rewrite map_length. lia.
     + intros m t tx H1 H2. cbn in H2. apply nth_error_map_inv in H2. destruct H2 as (t0 & H2 & ->).
-      rewrite H1 in H2. inv H2. split; [apply clear_others_version|apply clear_others_hosts].
+      rewrite H1 in H2. inv H2. split; [apply clear_others_version|split; [apply clear_others_hosts|]].
+      intros cls0 cid0 Hp0. eapply clear_others_ptr; eauto.
     + intros m tx H1 H2. cbn in H2. apply nth_error_map_inv in H2. destruct H2 as (t0 & H2 & _). congruence.
     + reflexivity.
   - inv H; auto.
@@ -897,7 +1006,7 @@ Proof.
   - rewrite E2 in G'. apply (Ic id b' G').
   - destruct (blob_step (set_index d i) c d' r id b' Ok A G') as [(b & G & R)|(_ & T & _ & Rp)].
     + cbn [set_index d_blobs] in G. destruct (Ic id b G) as [Rb Tb].
-      destruct R as (_ & _ & _ & _ & Hh & Hn & Rr).
+      destruct R as (_ & _ & _ & _ & Hh & Hn & Rr & _).
       assert (Er : b_repl b' = b_repl b) by (destruct Rr as [Rr|Rr]; [exact Rr|rewrite Rr; apply u8_small; exact Rb]).
       split; [rewrite Er; exact Rb|].
       apply Forall_of_nth. intros m t' Hm. unfold tract_c. rewrite Er.
@@ -909,7 +1018,7 @@ Proof.
         -- rewrite E. split; [constructor|left; reflexivity].
         -- cbn [hosts_sub] in Hs. rewrite E, norm_hosts_fix by auto. split; [exact Hs|].
            destruct T2 as [T2|T2]; [left; rewrite T2 in L; destruct hosts; [reflexivity|discriminate]|right; rewrite <- L; exact T2].
-      * destruct (Hn m t' Em Hm) as (first & hs & h & -> & Hin & E & L).
+      * destruct (Hn m t' Em Hm) as (first & hs & h & -> & Hin & E & L & _).
         cbn [hosts_sub] in Hs. rewrite Forall_forall in Hs. specialize (Hs h Hin).
         rewrite E, norm_hosts_fix by auto. split; [exact Hs|right; exact L].
     + split; [exact Rp|]. rewrite T. constructor.
@@ -1082,7 +1191,7 @@ Proof.
     + intros id2 b2 t2 h G Ht Hh. apply set_add_all_In. right. apply fold_aput_get in G.
       destruct G as [G|(bw & Hin & ->)]; [eapply Hb; eauto|].
       match goal with Hcl : commit_loop _ _ _ _ _ = CROk _ |- _ =>
-        destruct (commit_loop_upd_ok (concat data) _ _ _ _ _ _ Hcl (incl_refl _) (upd_ok_nil _ _) _ _ Hin) as (b0 & L & (Len & Rp & Hsame) & _) end.
+        destruct (commit_loop_upd_ok (concat data) _ _ _ _ _ _ Hcl (incl_refl _) (upd_ok_nil _ _ _) _ _ Hin) as (b0 & L & (Len & Rp & Hsame) & _) end.
       cbn [build_blob b_tracts] in Ht. apply in_map_iff in Ht. destruct Ht as (tw & <- & Htw).
       apply In_nth_error in Htw. destruct Htw as [m Hm].
       destruct (nth_error (b_tracts b0) m) as [t0|] eqn:E0.
